@@ -161,7 +161,7 @@ func oracleC07(l *harness.Live) (c07Info, *harness.Failure) {
 func TestC07Rapid(t *testing.T) {
 	runRapid(t, uC07, func(rt *rapid.T) {
 		o := xgen.WithNumberish(rt, xgen.CmpDoc(), 3)
-		if rapid.IntRange(0, 9).Draw(rt, "widedoc") == 0 {
+		if rapid.IntRange(0, 9).Draw(rt, "widedoc") == 9 {
 			o.WideFan = 12 // node-sets of dozens of nodes
 		}
 		doc := xgen.Doc(rt, o)
